@@ -1338,7 +1338,9 @@ namespace bloch::compiler {
 
         if (match(TokenType::LParen)) {
             const Token& lparen = previous();
-            if (isTypeAhead()) {
+            // Only primitive types can be cast to. An identifier here starts an expression,
+            // also when it looks like 'Type<Arg> name', e.g. '(a < b > c)'.
+            if (!check(TokenType::Identifier) && isTypeAhead()) {
                 std::unique_ptr<Type> targetType = parseType();
                 (void)expect(TokenType::RParen, "Expected ')' after type in cast expression");
                 // A cast sits at the unary level: its operand is a unary expression, which
